@@ -30,6 +30,7 @@ ASSUMPTIONS = [
     "tolerance 1e-6 relative",
 ]
 RULE = RULE + " " + pc._routes_rule() + " One case in 40 adds a table of more than 4096 rows (the data stacked r times against the data times sqrt r)."
+RULE = RULE + " " + 'One case in 6 adds fits for every k on a two-level factorial design (orthogonal, equal-norm columns: exactly tied eigenvalues), same arrays and configuration: both losses never increase with k.'
 
 
 def gen(rng, tier, index):
